@@ -26,7 +26,12 @@ META = {
                   "not a verdict). Lifecycle ids are compared up to an injective renaming built by TLC. Sorted pipelines are "
                   "only checked for permutation (the order is C10's claim; the sorter reads the lifecycle table while the "
                   "detector still updates it). Termination is observed with a 120 s bound after eos/drop and a 300 s bound on "
-                  "any single receive. Every run also follows the lifecycle table incrementally by refresh index (the remote.rs "
+                  "any single receive (120 s for the polling consumer styles; then a `stalled` event is recorded). The last receiver "
+                  "waits in one of four styles: blocking recv, loop of short recv_timeouts, try_recv + sleep polling (0.2/1/10 ms), "
+                  "mixed. Binary level: `adlt remote` is started, a 1.7 M message log is opened paused / one_pass so that the "
+                  "parser parks on the full channels, the client vanishes without close; the server's thread census "
+                  "(/proc/<pid>/task) has to return to the pre-connection value within 30 s and a new connection has to be "
+                  "served (PipelineRemoteTrace.tla). Every run also follows the lifecycle table incrementally by refresh index (the remote.rs "
                   "rule) from the consumer and from a separate thread; the folded view must equal the final table for the ids of "
                   "the final table (judged in complete runs only, not after a consumer drop). Long stalls: a few cases per run hold the producer (2.6-3.5 s, thorough also 6 s) or the "
                   "consumer (2.6-3.2 s) once at a chosen index; a stage time-out longer than that is not exercised. Streams are clean boots (monotone reception times, sane timestamps): detector corner "
@@ -152,6 +157,29 @@ def binding_selftest(ctx, cases, accepted):
     ctx.extra["binding_selftest"] = {"corrupted_rejected": len(expect_rej), "controls_accepted": len(expect_ok)}
 
 
+def remote_selftest(ctx, rcases):
+    """a thread that stayed / a server that no longer serves must be rejected"""
+    k = sorted(rcases)[0]
+    evs = rcases[k]
+    ci = [i for i, e in enumerate(evs) if e["ev"] == "census"][0]
+    ri = [i for i, e in enumerate(evs) if e["ev"] == "reopen"][0]
+    out, n = [], 0
+    variants = [("control", list(evs))]
+    v = list(evs); v[ci] = dict(evs[ci], threads_after=evs[ci]["threads_after"] + 3); variants.append(("threads-stay", v))
+    v = list(evs); v[ri] = dict(evs[ri], ok=False); variants.append(("no-service", v))
+    v = list(evs); v.insert(ci, {"ev": "server_exit", "status": "signal: 6"}); variants.append(("server-died", v))
+    for name, vv in variants:
+        out.append(dict(vv[0], case=n)); out.extend(vv[1:]); n += 1
+    path = ctx.path("selftest-remote.ndjson")
+    with open(path, "w") as f:
+        for e in out:
+            f.write(json.dumps(e) + "\n")
+    v = c.validate_trace(ctx, "selftest-remote", "PipelineRemoteTrace.tla", path)
+    if v.violations != {1, 2, 3}:
+        raise c.ToolError("binding self-test failed: PipelineRemoteTrace rejected %s, expected [1, 2, 3]" % sorted(v.violations))
+    ctx.extra["binding_selftest_remote"] = {"corrupted_rejected": 3, "controls_accepted": 1}
+
+
 def check(ctx):
     quick = ctx.quick()
     binp = c.build_harness("c13")
@@ -168,15 +196,42 @@ def check(ctx):
         c.tlc_must_pass(ctx, "design-full", "mc/MCPipeline.tla", "Pipeline_thorough.cfg", timeout=6000)
     # (b) scenarios: capacity vectors x drop positions x pacing hints (initial states of the model)
     scn, nscn = emit(ctx, quick)
+    # binary level (consumer = websocket client of `adlt remote` vanishing without close): runs beside the library cases
+    adlt = c.build_adlt_bin()
+    rtrace = ctx.path("trace-remote.ndjson")
+    shapes = "onepass_parked,control_small" if quick else "onepass_parked,control_small,paused_parked,while_parsing,while_streaming,mid_frame,onepass_parked"
+    rproc = subprocess.Popen([binp, "--remote-drop", shapes, "--adlt", adlt, "--work", ctx.work, "--out", rtrace],
+                             stdout=subprocess.PIPE, stderr=subprocess.STDOUT, text=True, errors="replace")
     # (c,d) real pipelines under these scripts + seeded random scripts
     tot = drive_sharded(ctx, binp, ["--scenarios", scn, "--random", str(nrand), "--seed", str(ctx.seed), "--max-len", str(maxlen),
                                     "--scn-len", str(scnlen), "--long", str(nlong)], trace)
+    try:
+        rout, _ = rproc.communicate(timeout=1200)
+    except subprocess.TimeoutExpired:
+        rproc.kill()
+        raise c.ToolError("remote-drop driver timed out")
+    if rproc.returncode != 0:
+        raise c.ToolError("remote-drop driver failed: " + (rout or "")[-2000:])
     # (e) TLC validates every recorded run against the contract
+    vr = c.validate_trace(ctx, "remote", "PipelineRemoteTrace.tla", rtrace, timeout=600)
+    ctx.add_tlc("trace-validation-remote", vr.res)
+    rcases = c.split_cases(rtrace)
     v = c.validate_trace(ctx, "pipeline", "PipelineTrace.tla", trace, timeout=3000)
     ctx.add_tlc("trace-validation", v.res)
     cases = c.split_cases(trace)
-    ctx.evaluations = tot["cases"]
-    ctx.traces_validated = tot["cases"] - len(v.violations)
+    ctx.evaluations = tot["cases"] + len(rcases)
+    ctx.traces_validated = tot["cases"] - len(v.violations) + len(rcases) - len(vr.violations)
+    rst = {"cases": len(rcases), "shapes": {}, "parked_with_backpressure": 0, "max_census_wait_ms": 0}
+    for k, evs in rcases.items():
+        h = evs[0]["hdr"]
+        rst["shapes"][h["shape"]] = rst["shapes"].get(h["shape"], 0) + 1
+        for e in evs:
+            if e["ev"] == "census":
+                rst["max_census_wait_ms"] = max(rst["max_census_wait_ms"], e["waited_ms"])
+                # parser + lifecycle + connection thread still there, process idle, more messages than the channels hold
+                if e["parked"] and e["threads_during"] >= e["threads_before"] + 3 and h["file_msgs"] > h["channel_capacity"]:
+                    rst["parked_with_backpressure"] += 1
+    ctx.extra["remote_drop"] = rst
     ctx.rule = ("a case = one run of one real pipeline (threads, sync_channels of the given capacities, the send helper) under "
                 "one pacing script, compared by TLC with the reference run of the same pipeline; non-trivial = the Full branch "
                 "of the helper ran at least once in the case (hook counter) or the consumer dropped; distinct by "
@@ -186,6 +241,7 @@ def check(ctx):
           "stage_sets": {}, "remote_wiring": 0, "cap0_or_1_with_full": 0, "recv_events": 0, "max_n_in": 0,
           "long_producer_stall_with_filter": 0, "long_producer_stall_without_filter": 0, "long_producer_stall_with_sort": 0,
           "long_producer_stall_while_lc_buffers": 0, "long_consumer_stall": 0, "max_producer_stall_ms": 0, "max_consumer_stall_ms": 0,
+          "consumer_styles": {}, "polling_consumer_on_rendezvous_last_channel": 0, "polling_on_rendezvous_complete": 0,
           "lc_fold_events": 0, "observer_polls": 0, "cases_late_ecu_complete": 0, "cases_with_3_or_more_table_versions_seen": 0}
     for k, evs in cases.items():
         h = evs[0]["hdr"]
@@ -194,6 +250,11 @@ def check(ctx):
         nrecv = sum(1 for e in evs if e["ev"] == "recv")
         st["recv_events"] += nrecv
         st["max_n_in"] = max(st["max_n_in"], h["n_in"])
+        sty = {0: "blocking", 1: "recv_timeout_loop", 2: "try_recv_polling", 3: "mixed"}[h["c_style"]]
+        st["consumer_styles"][sty] = st["consumer_styles"].get(sty, 0) + 1
+        if h["c_style"] >= 2 and h["caps"][-1] == 0:
+            st["polling_consumer_on_rendezvous_last_channel"] += 1
+            st["polling_on_rendezvous_complete"] += 1 if any(e["ev"] == "eos" for e in evs) and nrecv > 0 else 0
         folds = [e for e in evs if e["ev"] == "lc_fold"]
         st["lc_fold_events"] += len(folds)
         st["observer_polls"] += sum(e["polls"] for e in folds)
@@ -239,13 +300,25 @@ def check(ctx):
         if not tot["hung"] and (st["drop_start"] == 0 or st["drop_middle"] == 0 or st["drop_end"] == 0 or st["sorted"] == 0 or st["unsorted"] == 0):
             raise c.ToolError("vacuous run: missing path %s" % st)
         for k in ("long_producer_stall_with_filter", "long_producer_stall_without_filter", "long_producer_stall_with_sort",
-                  "long_producer_stall_while_lc_buffers", "long_consumer_stall", "lc_fold_events", "cases_late_ecu_complete",
+                  "long_producer_stall_while_lc_buffers", "long_consumer_stall", "lc_fold_events", "cases_late_ecu_complete", "polling_on_rendezvous_complete",
                   "cases_with_3_or_more_table_versions_seen"):
             if st[k] == 0:
                 raise c.ToolError("vacuous run: no case with path %s (%s)" % (k, st))
         if tot["skipped_ref"] * 4 > nscn + nrand:
             raise c.ToolError("too many reference runs failed (%d): the stream generator left the clean domain" % tot["skipped_ref"])
+        if rst["parked_with_backpressure"] == 0:
+            raise c.ToolError("vacuous run: no remote-drop case reached the parked / back-pressured state (%s)" % rst)
         binding_selftest(ctx, cases, set(cases))
+        if not vr.violations:
+            remote_selftest(ctx, rcases)
+    ctx.replay_module = ("PipelineRemoteTrace.tla", {})
+    rrej = {r[0]: r for r in vr.rejected}
+    for k in sorted(vr.violations):
+        r = rrej.get(k)
+        ctx.violation("remote-drop case %d (%s) rejected by PipelineRemoteTrace at line %s: %s" % (
+            k, rcases[k][0]["hdr"]["shape"] if k in rcases else "?", r[1] if r else "?", r[2] if r else "unfinished"),
+            {"case": k, "trace": rcases.get(k), "first_unmatched": r[2] if r else None})
+    ctx.replay_module = ("PipelineTrace.tla", {})
     rej = {r[0]: r for r in v.rejected}
     for k in sorted(v.violations):
         r = rej.get(k)
